@@ -9,9 +9,11 @@
 (*   than the governance account - a user or a bot through a signed        *)
 (*   transaction, any address (user, module account, empty) through the    *)
 (*   message router - must be rejected and must leave the digest of all    *)
-(*   module stores unchanged; governance itself is never refused as        *)
-(*   unauthorised; and every registered authority type must have been      *)
-(*   exercised from every sender class (nothing forgotten).                *)
+(*   module stores unchanged; and every registered authority type must     *)
+(*   have been exercised from every sender class (nothing forgotten).      *)
+(*   (Whether governance itself is accepted is recorded as evidence of     *)
+(*   non-vacuity, it is not part of the property: e.g. an airdrop whose    *)
+(*   recorded authority is an ordinary account refuses governance too.)    *)
 (* Part 2 (owner scope; ordinary traces): a successful message alters only *)
 (*   positions / orders / ledger entries of its sender.                    *)
 (***************************************************************************)
@@ -27,7 +29,6 @@ AuthChecks(e) ==
   { Chk("C17", "C17.authority_message_from_non_authority_is_rejected", a.senderClass # "gov", a.senderClass # "gov" => ~e.ok, e.name),
     Chk("C17", "C17.rejected_authority_message_leaves_state_unchanged", a.senderClass # "gov" /\ a.via = "router",
         (a.senderClass # "gov" /\ a.via = "router") => ~a.changed, e.name),
-    Chk("C17", "C17.governance_is_not_refused_as_unauthorised", a.senderClass = "gov", a.senderClass = "gov" => ~a.refusedAsUnauthorized, e.log),
     Chk("C17", "C17.message_could_be_instantiated", TRUE, a.built, e.name) }
 
 \* completeness: types = the registered authority types, seen = {<<type, senderClass, via>>} exercised
